@@ -67,6 +67,7 @@ def run(ctx, rep):
     record_shapes(F, rep)
     log_arguments(F, rep)
     panic_is_not_success(ctx, rep)
+    function_table_writers_agree(F, rep)
     rep.assume("a character not compared against any constant by the reader behaves like the class representative 'x' (the reader touches "
                "characters only through comparisons with constants and char::is_whitespace)")
     try:
@@ -328,3 +329,32 @@ def panic_is_not_success(ctx, rep):
                         "died of a panic (the sibling command re-raises it and exits 101)" % mir.short(f.path)) if oks else "%d tests of the join result; its Err side never reaches an Ok return" % tests,
                        c.span, fn=f.path, key=key)
     rep.floor("C04.exit-status thread joins in the binary", n, 2)
+
+
+def function_table_writers_agree(F, rep, rule="C04.function-table"):
+    """`run` builds the function table of the entry file in memory (MScriptFileBuilder::add_function -> Functions::add_function), `execute` builds
+    it by reading the file (MScriptFile::get_functions).  The two tables have to bind every label to the same body - also when a label occurs
+    twice (classes of one name declared in two function bodies share their labels: known finding C08.code-label).  Every writer of a
+    `HashMap<String, Function>` in crate bytecode is found by the type of its receiver; all of them must apply the same policy, and the policy
+    read from today's tree is the plain `HashMap::insert` (the last definition wins): an entry-API / contains_key / try_insert writer keeps the
+    first one, and the same bytecode then runs differently from a file."""
+    import re
+    writers = {}
+    for f in F.crates["bytecode"].fns:
+        for c in f.calls():
+            cal = mir.strip_generics(c.callee() or "")
+            if not re.search(r"HashMap::(insert|entry|try_insert|extend|get_or_insert_with)$|hash_map::(Entry|VacantEntry|OccupiedEntry)::\w+$|map::(Entry|VacantEntry|OccupiedEntry)::\w+$", cal):
+                continue
+            l = mir.op_local(c.args[0]) if c.args else None
+            ty = f.locals[l] if l is not None else ""
+            if "bytecode::function::Function" not in ty or "String" not in ty:
+                continue
+            writers.setdefault(f.path, []).append((mir.short(cal), c))
+    rep.floor(rule + " writers of a function table", len(writers), 2)
+    for path, lst in sorted(writers.items()):
+        kinds = sorted({k for k, _ in lst})
+        plain = kinds == ["HashMap::insert"]
+        rep.ob(rule, "%s writes a label into the function table with a plain insert (a repeated label: the last definition wins, in memory and from a file alike)" % mir.short(path),
+               "ok" if plain else "violated",
+               "" if plain else "the table is written through %s: a label that occurs twice is bound to a different body than the other loader binds it to" % kinds,
+               lst[0][1].span, fn=path, key="%s|%s" % (rule, mir.short(path)))
